@@ -7,6 +7,13 @@ import H5V.Model.HtmlTB.Run
 `same_node`, `pop`, `parse_error`, `set_quirks_mode`, `add_attrs_if_missing`, …) and updates builder
 fields: scope tests, the `pop_until*` family, the list of active formatting elements, "any other end
 tag", `reset_insertion_mode`, `is_foreign`, ….
+
+Every leaf is registered for `cp_walk` as `with_reducible exact cp_foo …`: a failing plain `exact` makes
+the unifier unfold both monadic terms (0.5 s per failing leaf, and a String/Str pair such as
+`cp_popUntilNamed` against `popUntilNamedS name` does not terminate within the heartbeat limit).
+`reset_insertion_mode` is special: its result is needed to be a late mode, so it is proved at `SatC`
+level (`satc_resetInsertionMode`) and used through the bind rule `cp_reset_bind` (registered as a
+"leaf" that leaves the continuation goal, with `m ≠ .initial` in the context).
 -/
 namespace H5V.Lemmas.TBC
 open H5V.Model.HtmlTB
@@ -31,6 +38,18 @@ theorem mem_ctxElem {s0 : State} {c : List Id} {x : Id} (h : s0.contextElem = so
   exact Or.inl (Or.inr h)
 
 theorem mem_tail {a c : List Id} {x : Id} (h : x ∈ c) : x ∈ a ++ c := List.mem_append_right _ h
+
+/-- `∀ y ∈ l, y ∈ ctx` for a list `l` that is (the reverse of) the stack of a state that was read -/
+syntax "cp_list_mem" : tactic
+macro_rules
+  | `(tactic| cp_list_mem) => `(tactic|
+    (intro y hy
+     first
+       | exact mem_open hy
+       | exact mem_open (List.mem_reverse.mp hy)
+       | exact mem_open (List.mem_of_mem_drop hy)
+       | ctx_mem
+       | (simp only [List.mem_reverse] at hy; ctx_mem)))
 
 /-! ### small accessors -/
 
@@ -79,13 +98,13 @@ macro_rules | `(tactic| cp_leaf) => `(tactic| with_reducible exact cp_adjustedCu
 
 theorem cp_isFragment {c : List Id} : CP d0 c isFragment (fun _ => []) := by
   unfold H5V.Model.HtmlTB.isFragment
-  cp_walk
+  exact cp_getS_bind (fun _ => cp_pure_nil _)
 
 macro_rules | `(tactic| cp_leaf) => `(tactic| with_reducible exact cp_isFragment)
 
 theorem cp_pendingTableTextEmpty {c : List Id} : CP d0 c pendingTableTextEmpty (fun _ => []) := by
   unfold H5V.Model.HtmlTB.pendingTableTextEmpty
-  cp_walk
+  exact cp_getS_bind (fun _ => cp_pure_nil _)
 
 macro_rules | `(tactic| cp_leaf) => `(tactic| with_reducible exact cp_pendingTableTextEmpty)
 
@@ -104,7 +123,7 @@ theorem CB.of_shrinkAF {s s' : State} (h : CB d0 s) (hd : s'.dom = s.dom) (ht : 
     fun x hx => by rw [hd]; exact h.h.open_tc x (ho x hx),
     fun x t hx => by rw [hd]; exact h.h.af x t (ha _ _ hx),
     fun x hx => by rw [hd]; exact h.h.head x (hh x hx), fun x hx => by rw [hd]; exact h.h.form x (hf x hx),
-    fun x hx => by rw [hd]; exact h.h.ctx x (hc x hx)⟩
+    fun x hx => by rw [hd]; exact h.h.ctx x (hc x hx), fun x hx => by rw [hd]; exact h.h.headTc x (hh x hx)⟩
   l := hl
 
 theorem cp_pushMarker {c : List Id} : CP d0 c pushMarker (fun _ => []) := by
@@ -262,7 +281,9 @@ macro_rules | `(tactic| cp_leaf) => `(tactic| with_reducible exact cp_popUntilNa
 
 theorem cp_expectToCloseS {c : List Id} {name : Str} : CP d0 c (expectToCloseS name) (fun _ => []) := by
   unfold H5V.Model.HtmlTB.expectToCloseS
-  cp_walk
+  refine cp_bind cp_popUntilNamedS ?_
+  intro n
+  exact cp_ite (fun _ => cp_parseError) (fun _ => cp_pure_nil _)
 
 macro_rules | `(tactic| cp_leaf) => `(tactic| with_reducible exact cp_expectToCloseS)
 
@@ -273,13 +294,15 @@ macro_rules | `(tactic| cp_leaf) => `(tactic| with_reducible exact cp_expectToCl
 
 theorem cp_closePElement {c : List Id} : CP d0 c closePElement (fun _ => []) := by
   unfold H5V.Model.HtmlTB.closePElement
-  cp_walk
+  exact cp_bind cp_generateImpliedEndTags (fun _ => cp_expectToClose)
 
 macro_rules | `(tactic| cp_leaf) => `(tactic| with_reducible exact cp_closePElement)
 
 theorem cp_closePElementInButtonScope {c : List Id} : CP d0 c closePElementInButtonScope (fun _ => []) := by
   unfold H5V.Model.HtmlTB.closePElementInButtonScope
-  cp_walk
+  refine cp_bind cp_inScopeNamed ?_
+  intro b
+  exact cp_ite (fun _ => cp_closePElement) (fun _ => cp_pure_nil _)
 
 macro_rules | `(tactic| cp_leaf) => `(tactic| with_reducible exact cp_closePElementInButtonScope)
 
@@ -530,6 +553,8 @@ theorem cp_endTagSearch {c : List Id} {name : Str} : ∀ (l : List Id) (len : Na
     refine cp_ite (fun _ => ?_) (fun _ => cp_ctx_mono ih' (fun x hx => mem_tail (mem_tail hx)))
     exact cp_bind cp_parseError (fun _ => cp_pure_nil _)
 
+macro_rules | `(tactic| cp_leaf) => `(tactic| with_reducible exact cp_endTagSearch _ _ (by cp_list_mem))
+
 theorem cp_findFurthestBlock {c : List Id} : ∀ (l : List Id) (i : Nat), (∀ x ∈ l, x ∈ c) →
     CP d0 c (findFurthestBlock l i) (fun r => (r.map Prod.snd).toList) := by
   intro l
@@ -547,6 +572,8 @@ theorem cp_findFurthestBlock {c : List Id} : ∀ (l : List Id) (i : Nat), (∀ x
     refine cp_ite (fun _ => ?_) (fun _ => cp_ctx_mono ih' (fun x hx => mem_tail hx))
     exact cp_pure (some (i, e)) (by intro x hx; simp at hx; subst hx; exact mem_tail he)
 
+macro_rules | `(tactic| cp_leaf) => `(tactic| with_reducible exact cp_findFurthestBlock _ _ (by cp_list_mem))
+
 theorem cp_positionSameNode {c : List Id} {x : Id} (hx : x ∈ c) : ∀ (l : List Id) (i : Nat), (∀ y ∈ l, y ∈ c) →
     CP d0 c (positionSameNode x l i) (fun _ => []) := by
   intro l
@@ -559,6 +586,8 @@ theorem cp_positionSameNode {c : List Id} {x : Id} (hx : x ∈ c) : ∀ (l : Lis
     refine cp_bind (cp_sameNode (hl e List.mem_cons_self) hx) ?_
     intro b
     exact cp_ite (fun _ => cp_pure_nil _) (fun _ => cp_ctx_mono ih' (fun y hy => mem_tail hy))
+
+macro_rules | `(tactic| cp_leaf) => `(tactic| with_reducible exact cp_positionSameNode (by ctx_mem) _ _ (by cp_list_mem))
 
 theorem cp_findAInAF {c : List Id} : ∀ (l : List (Nat × Id × Tag)), (∀ e ∈ l, e.2.1 ∈ c) →
     CP d0 c (findAInAF l) (fun r => r.toList) := by
@@ -618,7 +647,13 @@ macro_rules | `(tactic| cp_leaf) => `(tactic| with_reducible exact cp_findAInAF_
 
 theorem cp_closeTheCell {c : List Id} : CP d0 c closeTheCell (fun _ => []) := by
   unfold H5V.Model.HtmlTB.closeTheCell
-  cp_walk
+  refine cp_bind cp_generateImpliedEndTags ?_
+  intro _
+  refine cp_bind cp_popUntil ?_
+  intro n
+  dsimp only
+  exact cp_ite (fun _ => cp_bind cp_parseError (fun _ => cp_clearActiveFormattingToMarker))
+    (fun _ => cp_clearActiveFormattingToMarker)
 
 macro_rules | `(tactic| cp_leaf) => `(tactic| with_reducible exact cp_closeTheCell)
 
@@ -834,7 +869,7 @@ theorem cp_listCloseSearch_state {c : List Id} {list : Bool} {s0 : State} :
     CP d0 (stH s0 ++ c) (listCloseSearch list s0.openElems.reverse) (fun _ => []) :=
   cp_listCloseSearch _ (fun _ hx => mem_open (List.mem_reverse.mp hx))
 
-macro_rules | `(tactic| cp_leaf) => `(tactic| with_reducible exact cp_listCloseSearch_state)
+macro_rules | `(tactic| cp_leaf) => `(tactic| with_reducible exact cp_listCloseSearch _ (by cp_list_mem))
 
 theorem cp_findOption {c : List Id} : ∀ (l : List Id), (∀ x ∈ l, x ∈ c) →
     CP d0 c (findOption l) (fun r => r.toList) := by
@@ -857,7 +892,7 @@ theorem cp_findOption_state {c : List Id} {s0 : State} :
     CP d0 (stH s0 ++ c) (findOption s0.openElems) (fun r => r.toList) :=
   cp_findOption _ (fun _ hx => mem_open hx)
 
-macro_rules | `(tactic| cp_leaf) => `(tactic| with_reducible exact cp_findOption_state)
+macro_rules | `(tactic| cp_leaf) => `(tactic| with_reducible exact cp_findOption _ (by cp_list_mem))
 
 theorem cp_anySameNode {c : List Id} {x : Id} (hx : x ∈ c) : ∀ (l : List Id), (∀ y ∈ l, y ∈ c) →
     CP d0 c (anySameNode x l) (fun _ => []) := by
@@ -876,7 +911,7 @@ theorem cp_anySameNode_state {c : List Id} {x : Id} {s0 : State} (hx : x ∈ stH
     CP d0 (stH s0 ++ c) (anySameNode x s0.openElems) (fun _ => []) :=
   cp_anySameNode hx _ (fun _ hy => mem_open hy)
 
-macro_rules | `(tactic| cp_leaf) => `(tactic| with_reducible exact cp_anySameNode_state (by ctx_mem))
+macro_rules | `(tactic| cp_leaf) => `(tactic| with_reducible exact cp_anySameNode (by ctx_mem) _ (by cp_list_mem))
 
 theorem cp_contextIsSelect {c : List Id} {site : String}
     (hs : TBSafe.infixL "@sink: ".toList ("unwrap-none" ++ "@" ++ site ++ ": " ++ "context_elem unwrap").toList = false := by decide) :
@@ -928,6 +963,8 @@ theorem cp_endLoop {c : List Id} : ∀ (l : List Id), (∀ x ∈ l, x ∈ c) →
     intro _
     exact cp_ctx_mono ih' (fun y hy => mem_tail hy)
 
+macro_rules | `(tactic| cp_leaf) => `(tactic| with_reducible exact cp_endLoop _ (by cp_list_mem))
+
 theorem cp_processEndTagInBody {c : List Id} {tag : Tag} : CP d0 c (processEndTagInBody tag) (fun _ => []) := by
   unfold H5V.Model.HtmlTB.processEndTagInBody
   refine cp_getS_bind ?_
@@ -949,10 +986,10 @@ theorem cp_processEndTagInBody {c : List Id} {tag : Tag} : CP d0 c (processEndTa
       refine cp_getS_bind ?_
       intro s1
       refine cp_ite (fun _ => cp_panicAt) (fun _ => ?_)
-      refine cp_bind (R := fun _ => []) ?_ ?_
-      · exact cp_ite (fun _ => cp_bind cp_unexpected (fun _ => cp_pure_nil _)) (fun _ => cp_pure_nil _)
-      · intro _
-        exact cp_modS_stack (g := fun l => l.take matchIdx) (fun l => List.take_sublist _ l)
+      have htk : ∀ (c' : List Id), CP d0 c'
+          (H5V.Model.HtmlTB.modS fun s => { s with openElems := s.openElems.take matchIdx }) (fun _ => []) :=
+        fun _ => cp_modS_stack (g := fun l => l.take matchIdx) (fun l => List.take_sublist _ l)
+      exact cp_ite (fun _ => cp_bind cp_unexpected (fun _ => htk _)) (fun _ => htk _)
 
 macro_rules | `(tactic| cp_leaf) => `(tactic| with_reducible exact cp_processEndTagInBody)
 
